@@ -80,7 +80,7 @@ class Engine:
         return Builder(self.p, self.r, inline, raises, max_depth,
                        assert_raises).build(ctx)
 
-    def facts(self, cfg: CFG) -> Facts:
+    def facts(self, cfg: CFG, start: Node = None) -> Facts:
         def writes_of(n: Node):
             res: Resolution = n.extra.get('res')
             if res is None:
@@ -93,7 +93,7 @@ class Engine:
                         return None
                     out |= ws
             return out
-        return Facts(cfg, writes_of)
+        return Facts(cfg, writes_of, start)
 
     # --------------------------------------------------------- predicates
     @staticmethod
